@@ -386,9 +386,12 @@ def vector3_body(c):
     inner_mode = c.choice(["grad", "vjp", "jacobian", "fwd_basis"])
     mid_mode, outer_mode = c.choice(["grad", "deriv", "jvp"]), c.choice(["grad", "deriv", "jvp"])
     phi_kind = c.int(0, 1)
+    # the operand that depends on the enclosing levels also passes through an identity spelled with array METHODS / attributes
+    via = c.choice(["none", "transpose_transpose", "T_T", "reshape", "ravel_reshape", "swapaxes_twice", "astype", "squeeze", "flatten_reshape", "clip_wide"])
+    ckpt = c.chance(1, 3)  # the product is computed by a checkpointed two-argument function (its backward pass recomputes it)
     ymix = float(c.int(0, 1))  # 0: the other operand depends on the OUTERMOST variable only (the cotangent on the middle one)
     s0, y0 = c.choice([0.6, 0.8, 1.1]), c.choice([0.7, 1.3, 1.7])
-    sample = {"k": k, "prod": prod_kind, "other_operand_uses_y": ymix, "wrt_operand": which, "inner": inner_mode, "mid": mid_mode, "outer": outer_mode, "phi": phi_kind, "vseed": vseed}
+    sample = {"k": k, "prod": prod_kind, "other_operand_uses_y": ymix, "via_methods": via, "checkpointed_product": ckpt, "wrt_operand": which, "inner": inner_mode, "mid": mid_mode, "outer": outer_mode, "phi": phi_kind, "vseed": vseed}
 
     def prod(np_, A, B):
         if prod_kind == "dot":
@@ -402,6 +405,7 @@ def vector3_body(c):
         return np_.einsum("ij,jk->ik", A, B)
 
     phi = (lambda np_, y: np_.sin(y)) if phi_kind == 0 else (lambda np_, y: y * y)
+    prod_ag = autograd.checkpoint(lambda A, B: prod(anp, A, B)) if ckpt else (lambda A, B: prod(anp, A, B))
 
     def G(s, y):  # closed form of sum(weights * d/d(operand) sum(sin(A B) phi(y)))
         if which == 0:
@@ -425,14 +429,22 @@ def vector3_body(c):
             return autograd.deriv(fun)
         return lambda t: autograd.make_jvp(fun)(t)(1.0)[1]
 
+    def through_methods(Z):
+        if via == "none" or not hasattr(Z, "reshape"):
+            return Z
+        sh = Z.shape
+        return {"transpose_transpose": lambda: Z.transpose().transpose(), "T_T": lambda: Z.T.T, "reshape": lambda: Z.reshape(sh),
+                "ravel_reshape": lambda: Z.ravel().reshape(sh), "swapaxes_twice": lambda: Z.swapaxes(0, 1).swapaxes(1, 0), "astype": lambda: Z.astype(float),
+                "squeeze": lambda: Z.squeeze(), "flatten_reshape": lambda: Z.flatten().reshape(sh), "clip_wide": lambda: Z.clip(-1e9, 1e9)}[via]()
+
     def K(s):
         def H(y):
             if which == 0:
-                other, at, wts = (s * B0 + y * B1 if ymix else s * B0), A0, W
-                F = lambda A: anp.sum(anp.sin(prod(anp, A, other)) * phi(anp, y))
+                other, at, wts = through_methods(s * B0 + y * B1 if ymix else s * B0), A0, W
+                F = lambda A: anp.sum(anp.sin(prod_ag(A, other)) * phi(anp, y))
             else:
-                other, at, wts = (s * A0 + y * A1 if ymix else s * A0), B0, W2
-                F = lambda B: anp.sum(anp.sin(prod(anp, other, B)) * phi(anp, y))
+                other, at, wts = through_methods(s * A0 + y * A1 if ymix else s * A0), B0, W2
+                F = lambda B: anp.sum(anp.sin(prod_ag(other, B)) * phi(anp, y))
             if inner_mode == "grad":
                 dF = autograd.grad(F)(at)
             elif inner_mode == "vjp":
@@ -468,7 +480,7 @@ def vector3_body(c):
     if not abs(float(got) - want) <= 1e-5 * max(1.0, abs(want)):
         return fail("wrong_value", f"depth 3 (d/ds d/dy of the innermost gradient): autograd {float(got)!r} closed form {want!r}", bucket("wrong_value"), sample=sample)
     c.features.update(prod=prod_kind, inner=inner_mode, mid=mid_mode, outer=outer_mode)
-    return ok(nontrivial=True, key=json.dumps([k, prod_kind, which, inner_mode, mid_mode, outer_mode, phi_kind, ymix]),
+    return ok(nontrivial=True, key=json.dumps([k, prod_kind, which, inner_mode, mid_mode, outer_mode, phi_kind, ymix, via, ckpt]),
               labels=[f"prod={prod_kind}", f"modes={outer_mode}>{mid_mode}>{inner_mode}"], sample=sample)
 
 
